@@ -71,8 +71,11 @@ def run_copy(u):
         sim2 = Sim(I, r2p)
         obs = []
         l2 = {lc.label: lc for lc in P.locations(I, sim2, tab, opts)}
+        # copying goes through the serialiser, which may shrink an array to the part the integrator uses (IAS15 after the particle
+        # number dropped): only what is still a persisted location of the SOURCE after the copy is compared
+        live = {lc_.label for lc_ in P.locations(I, sim, tab, opts)}
         for lc in locs:
-            if lc.label not in sy: continue
+            if lc.label not in sy or lc.label not in live: continue
             p1 = lc.ptr(I, sim); lc2 = l2.get(lc.label); p2 = lc2.ptr(I, sim2) if lc2 else None
             if p2 is None:
                 obs.append(("copy has %s" % lc.label, False, lc)); continue
